@@ -88,9 +88,11 @@ def colSet (ps : List (String × List PVal)) (k : String) (v : List PVal) : List
 def Db.expectedBits (db : Db) (fps : List FpIn) : Nat :=
   if db.fpNum > 0 then db.bits else (fps.head?.map (·.fp.bits)).getD 0
 
-/-- the property columns every fingerprint of a batch must provide -/
+/-- the property columns every fingerprint of a batch must provide: the database's own columns as soon
+as it has rows *or columns* (columns of length 0 declared on a still empty database count), otherwise
+those of the first fingerprint of the batch -/
 def Db.expectedProps (db : Db) (fps : List FpIn) : List String :=
-  if db.fpNum > 0 then db.props.map Prod.fst else (fps.head?.map (fun f => f.props.map Prod.fst)).getD []
+  if db.fpNum > 0 ∨ db.props ≠ [] then db.props.map Prod.fst else (fps.head?.map (fun f => f.props.map Prod.fst)).getD []
 
 def Db.badLevel (db : Db) (fps : List FpIn) : Bool := fps.any (fun f => f.fp.level != db.level)
 def Db.badBits (db : Db) (fps : List FpIn) : Bool := fps.any (fun f => f.fp.bits != db.expectedBits fps)
